@@ -62,6 +62,7 @@ RuleIdx == 1..NRules
 \*  Undef          a condition that is undefined on every file
 \*  Mod            tests.constants.one == 1     (needs import "tests")
 \*  PeSec          pe.number_of_sections == K   (needs import "pe"; true iff the file parsed is the PE sample)
+\*  Ext(a)         ext_t == a: the value of the external variable defined on THIS scanner for this scan (file.ext)
 NeedsString(c) == c.k = "M"
 NoReq == {i \in RuleIdx : ~NeedsString(Rule(i).cond)}
 
@@ -96,6 +97,7 @@ ETruth(c, r, file, V) ==      \* V: verdicts of the earlier rules; result TRUE /
     [] c.k = "Undef" -> FALSE
     [] c.k = "Mod"   -> TRUE
     [] c.k = "PeSec" -> file.pesec
+    [] c.k = "Ext"   -> file.ext = c.a
 
 \* condition value of every rule on a clean scanner (rule references see the condition value only)
 EConds(file) ==
@@ -173,6 +175,7 @@ MTruth(c, i) ==
     [] c.k = "Undef" -> FALSE
     [] c.k = "Mod"   -> ModTests \in DOMAIN modules
     [] c.k = "PeSec" -> ModPe \in DOMAIN modules /\ modules[ModPe].pesec
+    [] c.k = "Ext"   -> cur.file.ext = c.a
 
 \* D9 (ModelD9): once an iterator call made by rule evaluation was answered not-ready, a value read through the
 \* iterator (uintN, module fields parsed from the data) may be undefined instead
@@ -374,7 +377,7 @@ Destroyed == phase = "destroyed"
 ---------------------------------------------------------------------------
 (* PROPERTIES                                                              *)
 
-NoFile == [id |-> 0, size |-> 0, u8 |-> FALSE, pesec |-> FALSE, blocks |-> << >>]
+NoFile == [id |-> 0, size |-> 0, u8 |-> FALSE, pesec |-> FALSE, ext |-> 0, blocks |-> << >>]
 NoCall == [file |-> NoFile, pos |-> 1, pc |-> 1, ipc |-> 1, stage |-> "import", over |-> {}, mode |-> "mem"]
 ScanOver == phase = "idle" /\ cur.file.id # 0
 
